@@ -49,6 +49,11 @@ ROWS = [
  ("C15", "wrong-server/different-org-fid", "fixed", "FI profile cache shared by different ORG/FID pairs", "ORG 'a-b'/FID 'c' and ORG 'a'/FID 'b-c' (same URL) shared one cache file: one FI's DTPROFUP and profile were used for the other"),
  ("C19", "all/inactive-account-requested", "fixed", "--all requested configured accounts", "stmt/stmtend --all with accounts of some type in ofxget.cfg and no ACTIVE account of that type in the ACCTINFO response requested the configured ones - incl. accounts the server had just reported as not ACTIVE (also all/account-extra-or-duplicated)"),
  ("C10", "Integer/over-limit-accepted-on-read", "fixed", "negative integers with more digits", "Integer(n) accepted negative values with more than n digits (-1000000 at Integer(3)) on construction, reading and writing: enforce_length compared value >= 10**n (also C04 instance-exists-violating/integer-digits, integer-over-limit/kwargs/...=int)"),
+ ("C15", "seq/cache-regressed", "fixed", "profile replies were checked with assert", "under python -O (one shard in eight runs so) the asserts of request_profile() vanish: an older profile, or a reply with an error status, was accepted and written over the cached profile (also seq/returned-not-the-newest, seq/asked-with-wrong-date, seq/cache-not-a-whole-profile)"),
+ ("C20", "sedol/corrupt-accepted/alnum", "fixed", "sedol2isin validated its argument with assert", "under python -O sedol2isin() converted a SEDOL whose check digit or length is wrong (also sedol/corrupt-accepted/digits)"),
+ ("C04", "exactly-one-group-none-accepted/kwargs", "fixed", "an empty string satisfied an exactly-one group", "a member of an exactly-one group passed as '' (or read from an empty element) counted as present and was then stored as None: INTRASYNCRQ(token='', ...) existed with none of token/tokenonly/refresh (19 classes; pointed out by a seeding sub-agent on the unchanged tree)"),
+ ("C04", "empty-list-element-accepted/kwargs", "fixed", "None and '' were accepted as members of an element list", "TAX1099RQ(None, '2020'), PAYEERQ('') ... held a None member and wrote an empty element (12 element-list classes; pointed out by a seeding sub-agent)"),
+ ("C04", "out-of-order-accepted/etree", "fixed", "a child could follow list members it should precede", "TAX1099INT_V100 accepted ORIGSTATE, FORINCOME, TAXEXEMPTINT: after an exempted list member the sequence position fell back to the lower index (pointed out by a seeding sub-agent)"),
  ("C06", "caller-string-entity-decoded", "known", None, "a user id / password / account id / ORG / FID... that the CALLER passes and that contains an OFX entity sequence (e.g. password 'a&lt;b' or account 'x&amp;y') is entity-decoded by String.convert() when the request model is built, so the request carries 'a<b' / 'x&y' instead of what was supplied. Not repaired: the decode-on-assignment is by design shared between parsed text and Python values; a repair needs ~20 call sites in Client.py or an API change"),
  ("C15", "wrong-server/same-org-fid-different-url", "fixed", "FI profile cached from one server", "cache keyed by ORG-FID only: client of another URL sent A's DTPROFUP and used A's profile"),
 ]
